@@ -1,7 +1,409 @@
 import PrimitivModel.Model.Shape
 import PrimitivModel.Spec.Shape
+import PrimitivModel.Lemmas.Shape
+/-
+Property C09 — shape algebra.  Every `theorem` below is one proof obligation
+of `./check C09`.  The statements are over the executable model
+`Model/Shape.lean` (the code's 32/64-bit arithmetic) and the documentation-level
+specification `Spec/Shape.lean` (unbounded naturals, `none` = Error); both are
+run against the real library by the correspondence part of the check.
+
+* `Shape.Canonical` (Lemmas/Shape.lean) is the class invariant: depth ≤ 8, no
+  zero dimension, no trailing 1, batch ≠ 0, the cached `volume` is the exact
+  product of the dimensions and `volume * batch ≤ 0xffffffff`.
+* `toSpec s = ⟨s.dims, s.batch⟩`; `toSpec?` maps an Error to `none`.
+* for every constructor / rule `r` there are three theorems, for canonical
+  arguments and *all* other argument values (no bound at all is needed on axis,
+  index, size, padding, stride arguments; the only side condition is
+  `ids.length < 2^32` for `pick`/`batch_pick`, whose C++ narrows `ids.size()`
+  to `std::uint32_t`):
+    `r_spec`      `toSpec? (Model.r args) = Spec.r (toSpec args)`
+    `r_total`     `Model.r args ≠ crash`      (no undefined behaviour reached)
+    `r_canonical` `Model.r args = .ok s → s.Canonical`
+  All three are projections of one lemma `r_agree` in Lemmas/Shape.lean.
+* the `example` after an implication-shaped theorem shows that its hypotheses
+  are satisfied by a concrete non-trivial instance.
+-/
 namespace Primitiv.C09
+open Primitiv Primitiv.Spec
 
-theorem trim_nil : trim [] = [] := rfl
+/-! ### witnesses used by the examples -/
+/-- `Shape({2,3,1,4}, 5)` -/
+abbrev ex1 : Shape := ⟨[2, 3, 1, 4], 5, 24⟩
+/-- the same dimensions without a batch -/
+abbrev ex1b : Shape := ⟨[2, 3, 1, 4], 1, 24⟩
+abbrev ex3 : Shape := ⟨[6, 4], 1, 24⟩
+abbrev ex4 : Shape := ⟨[2, 3], 5, 6⟩
+abbrev ex5 : Shape := ⟨[4, 7], 3, 28⟩
+abbrev ex6 : Shape := ⟨[9, 8, 3], 2, 216⟩
+abbrev ex7 : Shape := ⟨[3, 2, 3, 5], 1, 90⟩
 
+/-! ### 1. canonical form -/
+
+/-- The default constructor. -/
+theorem scalar_canonical : Shape.scalar.Canonical := by decide
+
+/-- Every constructed shape is canonical. -/
+theorem new_canonical {dims : List Nat} {b : Nat} {s : Shape} (h : Shape.new dims b = .ok s) :
+    s.Canonical :=
+  (new_agree dims b).canonical h
+example : Shape.new [2, 3, 1, 4, 1, 1] 5 = .ok ex1 := rfl
+
+/-- A canonical shape is determined by its dimensions and batch. -/
+theorem canonical_ext {a b : Shape} (ha : a.Canonical) (hb : b.Canonical)
+    (h : toSpec a = toSpec b) : a = b := by
+  cases a; cases b
+  simp only [toSpec, SShape.mk.injEq] at h
+  have h1 := ha.vol; have h2 := hb.vol
+  simp only at h1 h2
+  simp [h.1, h.2, h1, h2]
+example : ex1.Canonical ∧ toSpec ex1 = toSpec ex1 := by decide
+
+/-- Dimensions and the batch of a canonical shape fit `std::uint32_t`. -/
+theorem canonical_fits {s : Shape} (h : s.Canonical) :
+    (∀ i, 0 < s.get i ∧ s.get i < W) ∧ 0 < s.batch ∧ s.batch < W ∧ 0 < s.volume ∧ s.volume < W :=
+  ⟨fun i => ⟨h.get_pos i, h.get_lt i⟩, Nat.pos_of_ne_zero h.batch_ne, h.batch_lt, h.vol_pos, h.vol_lt⟩
+example : ex1.Canonical := by decide
+
+/-! ### 2. the constructor against the specification; no silent wrap -/
+
+/-- `Shape(dims, batch)` accepts exactly what the specification accepts, with the same result
+(for all lists and batches, of any length and magnitude). -/
+theorem new_spec (dims : List Nat) (b : Nat) : toSpec? (Shape.new dims b) = Spec.mk dims b :=
+  (new_agree dims b).toSpec_eq
+
+theorem new_total (dims : List Nat) (b : Nat) : Shape.new dims b ≠ crash :=
+  (new_agree dims b).not_crash
+
+/-- `volume()` is the true product of the dimensions. -/
+theorem volume_exact {s : Shape} (h : s.Canonical) : s.volume = (toSpec s).volume := h.vol
+example : ex1.Canonical := by decide
+
+/-- `size()` (a 32-bit multiplication in the code) is the true element count, which is below 2^32. -/
+theorem size_exact {s : Shape} (h : s.Canonical) : s.size = (toSpec s).size ∧ (toSpec s).size < W := by
+  have h1 := size_exact' h
+  have h2 := h.bound
+  refine ⟨h1, ?_⟩
+  show s.batch * Spec.prod s.dims < W
+  rw [← h.vol, Nat.mul_comm]
+  simp only [MAXU, W] at *; omega
+example : ex1.Canonical := by decide
+
+/-- `lower_volume(dim)` (a 32-bit product in the code) is the true product of the first `dim`
+dimensions, for every `dim`. -/
+theorem lowerVolume_exact {s : Shape} (h : s.Canonical) (d : Nat) :
+    s.lowerVolume d = (toSpec s).lowerVolume d :=
+  lowerVolume_exact' h d
+example : ex1.Canonical := by decide
+
+/-! ### 3. equality and the leave-one-out comparison -/
+
+/-- `has_same_dims` is equality of the dimension lists (no hypothesis needed). -/
+theorem hasSameDims_iff (a b : Shape) : a.hasSameDims b = true ↔ a.dims = b.dims :=
+  Primitiv.hasSameDims_iff a b
+
+/-- `operator==` is "same dimensions and same batch". -/
+theorem eq_iff (a b : Shape) : a.eq b = true ↔ a.dims = b.dims ∧ a.batch = b.batch :=
+  eq_iff' a b
+
+/-- `has_same_loo_dims` never reaches undefined behaviour and computes the specification's
+leave-one-out comparison, for every `dim`. -/
+theorem hasSameLooDims_spec {a b : Shape} (ha : a.Canonical) (hb : b.Canonical) (d : Nat) :
+    a.hasSameLooDims b d = .ok (Spec.sameLoo (toSpec a) (toSpec b) d) :=
+  hasSameLooDims_eq ha.trimmed hb.trimmed d
+example : ex1.Canonical ∧ ex4.Canonical := by decide
+
+/-- … which is: equal on every axis except `dim`. -/
+theorem hasSameLooDims_iff {a b : Shape} (ha : a.Canonical) (hb : b.Canonical) (d : Nat) :
+    ∃ r, a.hasSameLooDims b d = .ok r ∧ (r = true ↔ ∀ i, i ≠ d → a.get i = b.get i) :=
+  ⟨_, hasSameLooDims_eq ha.trimmed hb.trimmed d, sameLoo_iff (toSpec a) (toSpec b) d⟩
+example : ex1.Canonical ∧ ex4.Canonical ∧ ex4.hasSameLooDims ex1 3 = .ok true := ⟨by decide, by decide, rfl⟩
+
+/-! ### 4. the rules -/
+
+/-! #### reshape -/
+theorem reshape_spec {a b : Shape} (ha : a.Canonical) (hb : b.Canonical) :
+    toSpec? (ShapeOps.reshape a b) = Spec.reshape (toSpec a) (toSpec b) :=
+  (ShapeOps.reshape_agree ha hb).toSpec_eq
+theorem reshape_total {a b : Shape} (ha : a.Canonical) (hb : b.Canonical) :
+    ShapeOps.reshape a b ≠ crash :=
+  (ShapeOps.reshape_agree ha hb).not_crash
+theorem reshape_canonical {a b : Shape} (ha : a.Canonical) (hb : b.Canonical) {s : Shape}
+    (h : ShapeOps.reshape a b = .ok s) : s.Canonical :=
+  (ShapeOps.reshape_agree ha hb).canonical h
+example : ex1.Canonical ∧ ex3.Canonical ∧ ShapeOps.reshape ex1 ex3 = .ok ⟨[6, 4], 5, 24⟩ :=
+  ⟨by decide, by decide, rfl⟩
+
+/-! #### flatten -/
+theorem flatten_spec {x : Shape} (hx : x.Canonical) :
+    toSpec? (ShapeOps.flatten x) = Spec.flatten (toSpec x) :=
+  (ShapeOps.flatten_agree hx).toSpec_eq
+theorem flatten_total {x : Shape} (hx : x.Canonical) :
+    ShapeOps.flatten x ≠ crash :=
+  (ShapeOps.flatten_agree hx).not_crash
+theorem flatten_canonical {x : Shape} (hx : x.Canonical) {s : Shape}
+    (h : ShapeOps.flatten x = .ok s) : s.Canonical :=
+  (ShapeOps.flatten_agree hx).canonical h
+example : ex1.Canonical ∧ ShapeOps.flatten ex1 = .ok ⟨[24], 5, 24⟩ :=
+  ⟨by decide, rfl⟩
+
+/-! #### scalarOp -/
+theorem scalarOp_spec {x k : Shape} (hx : x.Canonical) (hk : k.Canonical) :
+    toSpec? (ShapeOps.scalarOp x k) = Spec.scalarOp (toSpec x) (toSpec k) :=
+  (ShapeOps.scalarOp_agree hx hk).toSpec_eq
+theorem scalarOp_total {x k : Shape} (hx : x.Canonical) (hk : k.Canonical) :
+    ShapeOps.scalarOp x k ≠ crash :=
+  (ShapeOps.scalarOp_agree hx hk).not_crash
+theorem scalarOp_canonical {x k : Shape} (hx : x.Canonical) (hk : k.Canonical) {s : Shape}
+    (h : ShapeOps.scalarOp x k = .ok s) : s.Canonical :=
+  (ShapeOps.scalarOp_agree hx hk).canonical h
+example : ex1.Canonical ∧ Shape.scalar.Canonical ∧ ShapeOps.scalarOp ex1 Shape.scalar = .ok ex1 :=
+  ⟨by decide, by decide, rfl⟩
+
+/-! #### elementwise -/
+theorem elementwise_spec {a b : Shape} (ha : a.Canonical) (hb : b.Canonical) :
+    toSpec? (ShapeOps.elementwise a b) = Spec.elementwise (toSpec a) (toSpec b) :=
+  (ShapeOps.elementwise_agree ha hb).toSpec_eq
+theorem elementwise_total {a b : Shape} (ha : a.Canonical) (hb : b.Canonical) :
+    ShapeOps.elementwise a b ≠ crash :=
+  (ShapeOps.elementwise_agree ha hb).not_crash
+theorem elementwise_canonical {a b : Shape} (ha : a.Canonical) (hb : b.Canonical) {s : Shape}
+    (h : ShapeOps.elementwise a b = .ok s) : s.Canonical :=
+  (ShapeOps.elementwise_agree ha hb).canonical h
+example : ex1.Canonical ∧ ex1b.Canonical ∧ ShapeOps.elementwise ex1b ex1 = .ok ex1 :=
+  ⟨by decide, by decide, rfl⟩
+
+/-! #### slice -/
+theorem slice_spec {x : Shape} (hx : x.Canonical) (d lo up : Nat) :
+    toSpec? (ShapeOps.slice x d lo up) = Spec.slice (toSpec x) d lo up :=
+  (ShapeOps.slice_agree hx d lo up).toSpec_eq
+theorem slice_total {x : Shape} (hx : x.Canonical) (d lo up : Nat) :
+    ShapeOps.slice x d lo up ≠ crash :=
+  (ShapeOps.slice_agree hx d lo up).not_crash
+theorem slice_canonical {x : Shape} (hx : x.Canonical) (d lo up : Nat) {s : Shape}
+    (h : ShapeOps.slice x d lo up = .ok s) : s.Canonical :=
+  (ShapeOps.slice_agree hx d lo up).canonical h
+example : ex1.Canonical ∧ ShapeOps.slice ex1 3 1 4 = .ok ⟨[2, 3, 1, 3], 5, 18⟩ :=
+  ⟨by decide, rfl⟩
+
+/-! #### concat -/
+theorem concat_spec {xs : List Shape} (hxs : ∀ s ∈ xs, s.Canonical) (d : Nat) :
+    toSpec? (ShapeOps.concat xs d) = Spec.concat (xs.map toSpec) d :=
+  (ShapeOps.concat_agree xs hxs d).toSpec_eq
+theorem concat_total {xs : List Shape} (hxs : ∀ s ∈ xs, s.Canonical) (d : Nat) :
+    ShapeOps.concat xs d ≠ crash :=
+  (ShapeOps.concat_agree xs hxs d).not_crash
+theorem concat_canonical {xs : List Shape} (hxs : ∀ s ∈ xs, s.Canonical) (d : Nat) {s : Shape}
+    (h : ShapeOps.concat xs d = .ok s) : s.Canonical :=
+  (ShapeOps.concat_agree xs hxs d).canonical h
+example : (∀ s ∈ [ex1b, ex1, ex4], s.Canonical) ∧ ShapeOps.concat [ex1b, ex1, ex4] 3 = .ok ⟨[2, 3, 1, 9], 5, 54⟩ :=
+  ⟨by decide, rfl⟩
+
+/-! #### broadcast -/
+theorem broadcast_spec {x : Shape} (hx : x.Canonical) (d n : Nat) :
+    toSpec? (ShapeOps.broadcast x d n) = Spec.broadcast (toSpec x) d n :=
+  (ShapeOps.broadcast_agree hx d n).toSpec_eq
+theorem broadcast_total {x : Shape} (hx : x.Canonical) (d n : Nat) :
+    ShapeOps.broadcast x d n ≠ crash :=
+  (ShapeOps.broadcast_agree hx d n).not_crash
+theorem broadcast_canonical {x : Shape} (hx : x.Canonical) (d n : Nat) {s : Shape}
+    (h : ShapeOps.broadcast x d n = .ok s) : s.Canonical :=
+  (ShapeOps.broadcast_agree hx d n).canonical h
+example : ex1.Canonical ∧ ShapeOps.broadcast ex1 2 7 = .ok ⟨[2, 3, 7, 4], 5, 168⟩ :=
+  ⟨by decide, rfl⟩
+
+/-! #### pick -/
+theorem pick_spec {x : Shape} (hx : x.Canonical) (ids : List Nat) (d : Nat) (hids : ids.length < W) :
+    toSpec? (ShapeOps.pick x ids d) = Spec.pick (toSpec x) ids d :=
+  (ShapeOps.pick_agree hx ids d hids).toSpec_eq
+theorem pick_total {x : Shape} (hx : x.Canonical) (ids : List Nat) (d : Nat) (hids : ids.length < W) :
+    ShapeOps.pick x ids d ≠ crash :=
+  (ShapeOps.pick_agree hx ids d hids).not_crash
+theorem pick_canonical {x : Shape} (hx : x.Canonical) (ids : List Nat) (d : Nat) (hids : ids.length < W) {s : Shape}
+    (h : ShapeOps.pick x ids d = .ok s) : s.Canonical :=
+  (ShapeOps.pick_agree hx ids d hids).canonical h
+example : ex1.Canonical ∧ [0, 2, 1, 1, 0].length < W ∧ ShapeOps.pick ex1 [0, 2, 1, 1, 0] 1 = .ok ⟨[2, 1, 1, 4], 5, 8⟩ :=
+  ⟨by decide, by decide, rfl⟩
+
+/-! #### transpose -/
+theorem transpose_spec {x : Shape} (hx : x.Canonical) :
+    toSpec? (ShapeOps.transpose x) = Spec.transpose (toSpec x) :=
+  (ShapeOps.transpose_agree hx).toSpec_eq
+theorem transpose_total {x : Shape} (hx : x.Canonical) :
+    ShapeOps.transpose x ≠ crash :=
+  (ShapeOps.transpose_agree hx).not_crash
+theorem transpose_canonical {x : Shape} (hx : x.Canonical) {s : Shape}
+    (h : ShapeOps.transpose x = .ok s) : s.Canonical :=
+  (ShapeOps.transpose_agree hx).canonical h
+example : ex3.Canonical ∧ ShapeOps.transpose ex3 = .ok ⟨[4, 6], 1, 24⟩ :=
+  ⟨by decide, rfl⟩
+
+/-! #### permuteDims -/
+theorem permuteDims_spec {x : Shape} (hx : x.Canonical) (perm : List Nat) :
+    toSpec? (ShapeOps.permuteDims x perm) = Spec.permuteDims (toSpec x) perm :=
+  (ShapeOps.permuteDims_agree hx perm).toSpec_eq
+theorem permuteDims_total {x : Shape} (hx : x.Canonical) (perm : List Nat) :
+    ShapeOps.permuteDims x perm ≠ crash :=
+  (ShapeOps.permuteDims_agree hx perm).not_crash
+theorem permuteDims_canonical {x : Shape} (hx : x.Canonical) (perm : List Nat) {s : Shape}
+    (h : ShapeOps.permuteDims x perm = .ok s) : s.Canonical :=
+  (ShapeOps.permuteDims_agree hx perm).canonical h
+example : ex1.Canonical ∧ ShapeOps.permuteDims ex1 [3, 0, 4, 1, 2] = .ok ⟨[4, 2, 1, 3], 5, 24⟩ :=
+  ⟨by decide, rfl⟩
+
+/-! #### matmul -/
+theorem matmul_spec {l r : Shape} (hl : l.Canonical) (hr : r.Canonical) :
+    toSpec? (ShapeOps.matmul l r) = Spec.matmul (toSpec l) (toSpec r) :=
+  (ShapeOps.matmul_agree hl hr).toSpec_eq
+theorem matmul_total {l r : Shape} (hl : l.Canonical) (hr : r.Canonical) :
+    ShapeOps.matmul l r ≠ crash :=
+  (ShapeOps.matmul_agree hl hr).not_crash
+theorem matmul_canonical {l r : Shape} (hl : l.Canonical) (hr : r.Canonical) {s : Shape}
+    (h : ShapeOps.matmul l r = .ok s) : s.Canonical :=
+  (ShapeOps.matmul_agree hl hr).canonical h
+example : ex3.Canonical ∧ ex5.Canonical ∧ ShapeOps.matmul ex3 ex5 = .ok ⟨[6, 7], 3, 42⟩ :=
+  ⟨by decide, by decide, rfl⟩
+
+/-! #### conv2d -/
+theorem conv2d_spec {x w : Shape} (hx : x.Canonical) (hw : w.Canonical) (p0 p1 s0 s1 d0 d1 : Nat) :
+    toSpec? (ShapeOps.conv2d x w p0 p1 s0 s1 d0 d1) = Spec.conv2d (toSpec x) (toSpec w) p0 p1 s0 s1 d0 d1 :=
+  (ShapeOps.conv2d_agree hx hw p0 p1 s0 s1 d0 d1).toSpec_eq
+theorem conv2d_total {x w : Shape} (hx : x.Canonical) (hw : w.Canonical) (p0 p1 s0 s1 d0 d1 : Nat) :
+    ShapeOps.conv2d x w p0 p1 s0 s1 d0 d1 ≠ crash :=
+  (ShapeOps.conv2d_agree hx hw p0 p1 s0 s1 d0 d1).not_crash
+theorem conv2d_canonical {x w : Shape} (hx : x.Canonical) (hw : w.Canonical) (p0 p1 s0 s1 d0 d1 : Nat) {s : Shape}
+    (h : ShapeOps.conv2d x w p0 p1 s0 s1 d0 d1 = .ok s) : s.Canonical :=
+  (ShapeOps.conv2d_agree hx hw p0 p1 s0 s1 d0 d1).canonical h
+example : ex6.Canonical ∧ ex7.Canonical ∧ ShapeOps.conv2d ex6 ex7 1 0 2 1 1 2 = .ok ⟨[5, 6, 5], 2, 150⟩ :=
+  ⟨by decide, by decide, rfl⟩
+
+/-! #### pool2d -/
+theorem pool2d_spec {x : Shape} (hx : x.Canonical) (w0 w1 p0 p1 s0 s1 : Nat) :
+    toSpec? (ShapeOps.pool2d x w0 w1 p0 p1 s0 s1) = Spec.pool2d (toSpec x) w0 w1 p0 p1 s0 s1 :=
+  (ShapeOps.pool2d_agree hx w0 w1 p0 p1 s0 s1).toSpec_eq
+theorem pool2d_total {x : Shape} (hx : x.Canonical) (w0 w1 p0 p1 s0 s1 : Nat) :
+    ShapeOps.pool2d x w0 w1 p0 p1 s0 s1 ≠ crash :=
+  (ShapeOps.pool2d_agree hx w0 w1 p0 p1 s0 s1).not_crash
+theorem pool2d_canonical {x : Shape} (hx : x.Canonical) (w0 w1 p0 p1 s0 s1 : Nat) {s : Shape}
+    (h : ShapeOps.pool2d x w0 w1 p0 p1 s0 s1 = .ok s) : s.Canonical :=
+  (ShapeOps.pool2d_agree hx w0 w1 p0 p1 s0 s1).canonical h
+example : ex6.Canonical ∧ ShapeOps.pool2d ex6 2 3 1 0 2 1 = .ok ⟨[5, 6, 3], 2, 90⟩ :=
+  ⟨by decide, rfl⟩
+
+/-! #### batchPick -/
+theorem batchPick_spec {x : Shape} (hx : x.Canonical) (ids : List Nat) (hids : ids.length < W) :
+    toSpec? (ShapeOps.batchPick x ids) = Spec.batchPick (toSpec x) ids :=
+  (ShapeOps.batchPick_agree hx ids hids).toSpec_eq
+theorem batchPick_total {x : Shape} (hx : x.Canonical) (ids : List Nat) (hids : ids.length < W) :
+    ShapeOps.batchPick x ids ≠ crash :=
+  (ShapeOps.batchPick_agree hx ids hids).not_crash
+theorem batchPick_canonical {x : Shape} (hx : x.Canonical) (ids : List Nat) (hids : ids.length < W) {s : Shape}
+    (h : ShapeOps.batchPick x ids = .ok s) : s.Canonical :=
+  (ShapeOps.batchPick_agree hx ids hids).canonical h
+example : ex1.Canonical ∧ [4, 0, 0].length < W ∧ ShapeOps.batchPick ex1 [4, 0, 0] = .ok ⟨[2, 3, 1, 4], 3, 24⟩ :=
+  ⟨by decide, by decide, rfl⟩
+
+/-! #### batchSlice -/
+theorem batchSlice_spec {x : Shape} (hx : x.Canonical) (lo up : Nat) :
+    toSpec? (ShapeOps.batchSlice x lo up) = Spec.batchSlice (toSpec x) lo up :=
+  (ShapeOps.batchSlice_agree hx lo up).toSpec_eq
+theorem batchSlice_total {x : Shape} (hx : x.Canonical) (lo up : Nat) :
+    ShapeOps.batchSlice x lo up ≠ crash :=
+  (ShapeOps.batchSlice_agree hx lo up).not_crash
+theorem batchSlice_canonical {x : Shape} (hx : x.Canonical) (lo up : Nat) {s : Shape}
+    (h : ShapeOps.batchSlice x lo up = .ok s) : s.Canonical :=
+  (ShapeOps.batchSlice_agree hx lo up).canonical h
+example : ex1.Canonical ∧ ShapeOps.batchSlice ex1 1 4 = .ok ⟨[2, 3, 1, 4], 3, 24⟩ :=
+  ⟨by decide, rfl⟩
+
+/-! #### batchConcat -/
+theorem batchConcat_spec {xs : List Shape} (hxs : ∀ s ∈ xs, s.Canonical) :
+    toSpec? (ShapeOps.batchConcat xs) = Spec.batchConcat (xs.map toSpec) :=
+  (ShapeOps.batchConcat_agree xs hxs).toSpec_eq
+theorem batchConcat_total {xs : List Shape} (hxs : ∀ s ∈ xs, s.Canonical) :
+    ShapeOps.batchConcat xs ≠ crash :=
+  (ShapeOps.batchConcat_agree xs hxs).not_crash
+theorem batchConcat_canonical {xs : List Shape} (hxs : ∀ s ∈ xs, s.Canonical) {s : Shape}
+    (h : ShapeOps.batchConcat xs = .ok s) : s.Canonical :=
+  (ShapeOps.batchConcat_agree xs hxs).canonical h
+example : (∀ s ∈ [ex1b, ex1, ex1], s.Canonical) ∧ ShapeOps.batchConcat [ex1b, ex1, ex1] = .ok ⟨[2, 3, 1, 4], 11, 24⟩ :=
+  ⟨by decide, rfl⟩
+
+/-! #### split -/
+theorem split_spec {x : Shape} (hx : x.Canonical) (d n : Nat) :
+    toSpec? (ShapeOps.split x d n) = Spec.split (toSpec x) d n :=
+  (ShapeOps.split_agree hx d n).toSpec_eq
+theorem split_total {x : Shape} (hx : x.Canonical) (d n : Nat) :
+    ShapeOps.split x d n ≠ crash :=
+  (ShapeOps.split_agree hx d n).not_crash
+theorem split_canonical {x : Shape} (hx : x.Canonical) (d n : Nat) {s : Shape}
+    (h : ShapeOps.split x d n = .ok s) : s.Canonical :=
+  (ShapeOps.split_agree hx d n).canonical h
+example : ex1.Canonical ∧ ShapeOps.split ex1 3 2 = .ok ⟨[2, 3, 1, 2], 5, 12⟩ :=
+  ⟨by decide, rfl⟩
+
+/-! #### batchSplit -/
+theorem batchSplit_spec {x : Shape} (hx : x.Canonical) (n : Nat) :
+    toSpec? (ShapeOps.batchSplit x n) = Spec.batchSplit (toSpec x) n :=
+  (ShapeOps.batchSplit_agree hx n).toSpec_eq
+theorem batchSplit_total {x : Shape} (hx : x.Canonical) (n : Nat) :
+    ShapeOps.batchSplit x n ≠ crash :=
+  (ShapeOps.batchSplit_agree hx n).not_crash
+theorem batchSplit_canonical {x : Shape} (hx : x.Canonical) (n : Nat) {s : Shape}
+    (h : ShapeOps.batchSplit x n = .ok s) : s.Canonical :=
+  (ShapeOps.batchSplit_agree hx n).canonical h
+example : ex1.Canonical ∧ ShapeOps.batchSplit ex1 5 = .ok ex1b :=
+  ⟨by decide, rfl⟩
+
+/-! #### resizeDim -/
+theorem resizeDim_spec {x : Shape} (hx : x.Canonical) (d m : Nat) :
+    toSpec? (x.resizeDim d m) = Spec.setDim (toSpec x) d m :=
+  (updateDim_agree hx d m).toSpec_eq
+theorem resizeDim_total {x : Shape} (hx : x.Canonical) (d m : Nat) :
+    x.resizeDim d m ≠ crash :=
+  (updateDim_agree hx d m).not_crash
+theorem resizeDim_canonical {x : Shape} (hx : x.Canonical) (d m : Nat) {s : Shape}
+    (h : x.resizeDim d m = .ok s) : s.Canonical :=
+  (updateDim_agree hx d m).canonical h
+example : ex1.Canonical ∧ ex1.resizeDim 6 9 = .ok ⟨[2, 3, 1, 4, 1, 1, 9], 5, 216⟩ :=
+  ⟨by decide, rfl⟩
+
+/-! #### resizeBatch -/
+theorem resizeBatch_spec {x : Shape} (hx : x.Canonical) (b : Nat) :
+    toSpec? (x.resizeBatch b) = Spec.setBatch (toSpec x) b :=
+  (updateBatch_agree hx b).toSpec_eq
+theorem resizeBatch_total {x : Shape} (hx : x.Canonical) (b : Nat) :
+    x.resizeBatch b ≠ crash :=
+  (updateBatch_agree hx b).not_crash
+theorem resizeBatch_canonical {x : Shape} (hx : x.Canonical) (b : Nat) {s : Shape}
+    (h : x.resizeBatch b = .ok s) : s.Canonical :=
+  (updateBatch_agree hx b).canonical h
+example : ex1.Canonical ∧ ex1.resizeBatch 178956970 = .ok ⟨[2, 3, 1, 4], 178956970, 24⟩ :=
+  ⟨by decide, rfl⟩
+
+/-! #### updateDim -/
+theorem updateDim_spec {x : Shape} (hx : x.Canonical) (d m : Nat) :
+    toSpec? (x.updateDim d m) = Spec.setDim (toSpec x) d m :=
+  (updateDim_agree hx d m).toSpec_eq
+theorem updateDim_total {x : Shape} (hx : x.Canonical) (d m : Nat) :
+    x.updateDim d m ≠ crash :=
+  (updateDim_agree hx d m).not_crash
+theorem updateDim_canonical {x : Shape} (hx : x.Canonical) (d m : Nat) {s : Shape}
+    (h : x.updateDim d m = .ok s) : s.Canonical :=
+  (updateDim_agree hx d m).canonical h
+example : ex1.Canonical ∧ ex1.updateDim 3 1 = .ok ex4 :=
+  ⟨by decide, rfl⟩
+
+/-! #### updateBatch -/
+theorem updateBatch_spec {x : Shape} (hx : x.Canonical) (b : Nat) :
+    toSpec? (x.updateBatch b) = Spec.setBatch (toSpec x) b :=
+  (updateBatch_agree hx b).toSpec_eq
+theorem updateBatch_total {x : Shape} (hx : x.Canonical) (b : Nat) :
+    x.updateBatch b ≠ crash :=
+  (updateBatch_agree hx b).not_crash
+theorem updateBatch_canonical {x : Shape} (hx : x.Canonical) (b : Nat) {s : Shape}
+    (h : x.updateBatch b = .ok s) : s.Canonical :=
+  (updateBatch_agree hx b).canonical h
+example : ex1.Canonical ∧ ex1.updateBatch 1 = .ok ex1b :=
+  ⟨by decide, rfl⟩
 end Primitiv.C09
